@@ -55,10 +55,20 @@ func summariseOperand(c *Ctx, t *tables, a *parserAnchors, f *ssa.Function) oper
 		case call.Call.StaticCallee() == curFn && curFn != nil:
 			lvlCall = call
 		default:
-			if _, ok := isFieldLoad(call.Call.Value, t.pt.exprFld); ok {
+			_, direct := isFieldLoad(call.Call.Value, t.pt.exprFld)
+			sh := c.stepHelper(t, call.Call.StaticCallee())
+			if direct || sh != nil {
 				sub = call
 				s.viaChain = true
 				lv := resolve(call.Call.Args[1])
+				if sh != nil {
+					// the operand step as a helper: one advance, then the sub-parse at the level handed in
+					lv = resolve(call.Call.Args[sh.levelIdx])
+					s.advances++
+					if adv == nil {
+						adv = call
+					}
+				}
 				if k, ok := constInt64(lv); ok {
 					s.level = fmt.Sprintf("const %d", k)
 				} else if cc, ok := lv.(*ssa.Call); ok && cc.Call.StaticCallee() == curFn {
